@@ -18,6 +18,7 @@ type Step struct {
 	E   string `json:"e,omitempty"`   // "" = no expiry | long | past | short
 	W   int    `json:"w,omitempty"`   // waiter index (cancel)
 	Pre bool   `json:"pre,omitempty"` // start with an already cancelled context
+	Dl  bool   `json:"dl,omitempty"`  // start: the context ends like a deadline (DeadlineExceeded) when the script "cancels" it
 	// burst: the actions B (start cancel put cas del create get; no real-time expiry) are issued back-to-back
 	// without waiting for quiescence in between; one quiescence wait follows
 	B   []Step `json:"b,omitempty"`
@@ -152,7 +153,7 @@ func randomScript(r *prng.R, nk int, depth int, withShort bool) []Step {
 			} else if y >= 6 {
 				v = "stale"
 			}
-			ops = append(ops, Step{Op: "start", K: k, V: v, Pre: r.Chance(1, 12)})
+			ops = append(ops, Step{Op: "start", K: k, V: v, Pre: r.Chance(1, 12), Dl: r.Chance(1, 4)})
 			nw++
 		case x < 42:
 			if nw == 0 {
@@ -215,6 +216,14 @@ func expiryScripts() [][]Step {
 		res = append(res, []Step{{Op: "create", K: 0, E: "past"}, t, {Op: "start", K: 0, V: "cur"}, {Op: "put", K: 0}})
 		// the method before the expiry, waiters see the expiry themselves
 		res = append(res, []Step{{Op: "put", K: 0, E: "short"}, {Op: "start", K: 0, V: "cur"}, t, {Op: "start", K: 0, V: "cur"}, {Op: "expire"}, {Op: "get", K: 0}})
+	}
+	// a caller whose context ends by its DEADLINE while it is parked on a record that expires later (in an hour, or
+	// 120 ms later) or never: it returns its context's error then and there, like a cancelled one
+	for _, e := range []string{"long", "", "short"} {
+		for _, pre := range []bool{false, true} {
+			res = append(res, []Step{{Op: "put", K: 0, E: e}, {Op: "start", K: 0, V: "cur", Dl: true, Pre: pre}, {Op: "start", K: 0, V: "cur"},
+				{Op: "cancel", W: 0}, {Op: "get", K: 0}, {Op: "put", K: 0}})
+		}
 	}
 	// a waiter that gives up before the expiry must not take the others' wake-up with it: every proper non-empty
 	// subset of 2 or 3 waiters parked on a record with a real expiry is cancelled (in both orders) before the record
